@@ -10,6 +10,7 @@ Fixpoint rma (l : lockid) (p : list instr) : Z :=
   | [] => 0
   | IAcq l' :: r => (if lock_eqb l l' then -1 else 0) + rma l r
   | IRel l' :: r => (if lock_eqb l l' then 1 else 0) + rma l r
+  | IStopA _ :: r => (if lock_eqb l LLive then 1 else 0) + rma l r   (* both arms release the live lock once *)
   | _ :: r => rma l r
   end.
 
@@ -71,26 +72,45 @@ Proof. destruct l; reflexivity. Qed.
 
 Definition is_lock_op (i : instr) : bool := match i with IAcq _ | IRel _ => true | _ => false end.
 
+Lemma rma_tick l : rma l tick_seq = 0.
+Proof. destruct l; reflexivity. Qed.
+Lemma rma_refresh l : rma l refresh_seq = 0.
+Proof. destruct l; reflexivity. Qed.
+Lemma rma_stopa l rt : rma l (stopa_rest rt) = if lock_eqb l LLive then 1 else 0.
+Proof. destruct l; reflexivity. Qed.
+
 Lemma exec_prog_cases rep t s ts r i s' ts' :
   exec rep t s (set_prog ts r) i = Some (s', ts') ->
-  prog ts' = r \/ (i = ITest /\ prog ts' = flush_seq ++ r)
+  (prog ts' = r /\ forall rt, i <> IStopA rt) \/ (i = ITest /\ prog ts' = flush_seq ++ r)
   \/ (exists c h, i = IRdHooks c /\ prog ts' = print_rest rep h c ++ r)
-  \/ (i = IStart /\ prog ts' = start_rest ++ r) \/ (i = IStop /\ prog ts' = stop_rest ++ r).
+  \/ (i = IStart /\ prog ts' = start_rest ++ r) \/ (i = IStop /\ prog ts' = stop_rest ++ r)
+  \/ (i = ILoop /\ prog ts' = tick_seq ++ r) \/ (i = ICheckDone /\ prog ts' = refresh_seq ++ r)
+  \/ (exists rt, i = IStopA rt /\ prog ts' = stopa_rest rt ++ r)
+  \/ (exists rt, i = IStopA rt /\ prog ts' = IRel LLive :: r).
 Proof.
   intros He. destruct i; cbn [exec] in He;
     repeat match type of He with context [match ?x with _ => _ end] => destruct x end;
-    inversion He; subst; cbn [prog set_prog];
-    try (left; reflexivity); try (right; left; split; reflexivity);
+    inversion He; subst; cbn [prog set_prog app];
+    try (left; split; [reflexivity | intros; discriminate]); try (right; left; split; reflexivity);
     try (right; right; left; eexists; eexists; split; reflexivity);
     try (right; right; right; left; split; reflexivity);
-    try (right; right; right; right; split; reflexivity).
+    try (right; right; right; right; left; split; reflexivity);
+    try (right; right; right; right; right; left; split; reflexivity);
+    try (right; right; right; right; right; right; left; split; reflexivity);
+    try (right; right; right; right; right; right; right; left; eexists; split; reflexivity);
+    try (right; right; right; right; right; right; right; right; eexists; split; reflexivity).
 Qed.
 
 Lemma exec_prog_rma rep t s ts r i s' ts' l :
-  exec rep t s (set_prog ts r) i = Some (s', ts') -> rma l (prog ts') = rma l r.
+  is_lock_op i = false ->
+  exec rep t s (set_prog ts r) i = Some (s', ts') -> rma l (prog ts') = rma l (i :: r).
 Proof.
-  intros He. destruct (exec_prog_cases _ _ _ _ _ _ _ _ He) as [H|[[_ H]|[[c [h [_ H]]]|[[_ H]|[_ H]]]]];
-    rewrite H, ?rma_app, ?rma_flush, ?rma_print_rest, ?rma_start, ?rma_stop; lia.
+  intros Hn He.
+  destruct (exec_prog_cases _ _ _ _ _ _ _ _ He)
+    as [[H Hs]|[[Hi H]|[[c [h [Hi H]]]|[[Hi H]|[[Hi H]|[[Hi H]|[[Hi H]|[[rt [Hi H]]|[rt [Hi H]]]]]]]]]];
+    rewrite H, ?rma_app, ?rma_flush, ?rma_print_rest, ?rma_start, ?rma_stop, ?rma_tick, ?rma_refresh, ?rma_stopa;
+    subst; cbn [rma lock_eqb]; try lia.
+  destruct i; try discriminate Hn; cbn [rma]; try lia. exfalso. eapply Hs. reflexivity.
 Qed.
 
 Lemma exec_nonlock_getl rep t s ts i s' ts' l :
@@ -102,6 +122,8 @@ Proof.
   - destruct (is_nil (buf ts)); inversion He; subst; destruct l; reflexivity.
   - destruct (is_nil (buf ts)); inversion He; subst; destruct l; reflexivity.
   - destruct (hooks s); inversion He; subst; destruct l; reflexivity.
+  - destruct (existsb (Nat.eqb t0) (fin s)); inversion He; subst; destruct l; reflexivity.
+  - destruct (done s); inversion He; subst; destruct l; reflexivity.
 Qed.
 
 (* lock accounting of one step of thread t *)
@@ -141,8 +163,7 @@ Proof.
   - assert (G : forall l, getl s' l = getl s l) by (intro l; eapply exec_nonlock_getl; eauto).
     split; [|split].
     + intros l. rewrite G. apply Hp.
-    + intros l. unfold held. rewrite G. rewrite (exec_prog_rma _ _ _ _ _ _ _ _ l He).
-      destruct i; try discriminate El; cbn [rma]; lia.
+    + intros l. unfold held. rewrite G. rewrite (exec_prog_rma _ _ _ _ _ _ _ _ l El He). lia.
     + intros l u _. unfold held. rewrite G. reflexivity.
 Qed.
 
@@ -155,7 +176,9 @@ Definition head_ok (s : list instr) : Prop :=
   | IAcq l' :: _ => forall l, 0 < rma l s -> l = l' \/ rank l < rank l'
   | ITest :: _ => 1 <= rma LConsole s /\ rma LRecord s = 0
   | IRecord :: _ | IWrite :: _ => 1 <= rma LConsole s
-  | IRdHooks _ :: _ | IStart :: _ | IStop :: _ => rma LConsole s = 0 /\ rma LRecord s = 0
+  | IRdHooks _ :: _ | IStart :: _ | IStop :: _ | ICheckDone :: _ => rma LConsole s = 0 /\ rma LRecord s = 0
+  | IJoin _ :: _ | ILoop :: _ => forall l, rma l s = 0      (* joins / waits with no lock held *)
+  | IStopA _ :: r => forall l, rma l r = 0
   | _ => True
   end.
 Definition good (p : list instr) : Prop := forall s, suffix s p -> head_ok s.
@@ -226,6 +249,30 @@ Proof.
   cbn [stop_rest refresh_seq print_seq check_seq app all_tails]. hd.
 Qed.
 
+Lemma good_tick r : head_ok (ILoop :: r) -> good r -> good (tick_seq ++ r).
+Proof.
+  intros [H0 [H1 H2]] G. cbn [rma] in *. inst3 H0. inst3 H2. cbn [rma] in *.
+  apply good_expand; auto. cbn [tick_seq app all_tails]. hd.
+Qed.
+
+Lemma good_checkdone r : head_ok (ICheckDone :: r) -> good r -> good (refresh_seq ++ r).
+Proof.
+  intros [H0 [H1 [H2 H3]]] G. cbn [rma] in *. inst3 H0. cbn [rma] in *.
+  apply good_expand; auto. cbn [refresh_seq print_seq check_seq app all_tails]. hd.
+Qed.
+
+Lemma good_stopa rt r : head_ok (IStopA rt :: r) -> good r -> good (stopa_rest rt ++ r).
+Proof.
+  intros [H0 [H1 H2]] G. cbn [rma] in *. inst3 H2. cbn [rma] in *.
+  apply good_expand; auto. cbn [stopa_rest refresh_seq print_seq check_seq app all_tails]. hd.
+Qed.
+
+Lemma good_stopa_rel rt r : head_ok (IStopA rt :: r) -> good r -> good (IRel LLive :: r).
+Proof.
+  intros [H0 [H1 H2]] G. cbn [rma] in *. inst3 H2. cbn [rma] in *.
+  change (IRel LLive :: r) with ([IRel LLive] ++ r). apply good_expand; auto. cbn [app all_tails]. hd.
+Qed.
+
 Lemma rma_compile l ops : rma l (compile ops) = 0.
 Proof.
   induction ops as [|o r IH]; cbn [compile flat_map]; [reflexivity|].
@@ -273,12 +320,17 @@ Proof.
     + rewrite C2; [apply Ic|]. intro; subst. rewrite Nat.eqb_refl in E. discriminate.
   - intros u. unfold upd. destruct (Nat.eqb u t) eqn:E; [|apply Ig].
     specialize (Ig t). rewrite Ep in Ig. pose proof (good_tail _ _ Ig) as Gr. pose proof (good_head _ Ig) as Gh.
-    destruct (exec_prog_cases _ _ _ _ _ _ _ _ Ee) as [H|[[Hi H]|[[c [h [Hi H]]]|[[Hi H]|[Hi H]]]]]; rewrite H; subst.
+    destruct (exec_prog_cases _ _ _ _ _ _ _ _ Ee)
+      as [[H _]|[[Hi H]|[[c [h [Hi H]]]|[[Hi H]|[[Hi H]|[[Hi H]|[[Hi H]|[[rt [Hi H]]|[rt [Hi H]]]]]]]]]]; rewrite H; subst.
     + exact Gr.
     + apply good_flush; auto.
     + apply good_print_rest; auto.
     + apply good_start; auto.
     + apply good_stop; auto.
+    + apply good_tick; auto.
+    + apply good_checkdone; auto.
+    + apply good_stopa; auto.
+    + apply (good_stopa_rel rt); auto.
 Qed.
 
 Lemma run_inv rep sched : forall st, Inv st -> Inv (run rep sched st).
@@ -343,7 +395,8 @@ Qed.
 (* an unblocked thread really steps, except for the IndexError of an unmatched pop_render_hook *)
 Lemma not_blocked_steps rep st t i r :
   Inv st -> prog (th st t) = i :: r -> ~ blocked st t ->
-  step rep st t <> None \/ (i = IPopHook /\ hooks (sh st) = 0%nat).
+  step rep st t <> None \/ (i = IPopHook /\ hooks (sh st) = 0%nat)
+  \/ (exists t', i = IJoin t' /\ existsb (Nat.eqb t') (fin (sh st)) = false).
 Proof.
   intros [Ip Ic Ig] Hp Hb. unfold step. rewrite Hp.
   destruct i; cbn [exec];
@@ -357,14 +410,16 @@ Proof.
     specialize (Ic t l). rewrite Hp in Ic. cbn [rma] in Ic. rewrite lock_eqb_refl in Ic.
     destruct (held_owner (sh st) l t Ip ltac:(lia)) as [n Hn'].
     unfold release. rewrite Hn'. pose proof (Ip l t n Hn'). destruct n; [lia|]. rewrite Nat.eqb_refl. left; discriminate.
-  - destruct (hooks (sh st)); [right; auto | left; discriminate].
+  - destruct (hooks (sh st)); [right; left; auto | left; discriminate].
+  - destruct (existsb (Nat.eqb t0) (fin (sh st))) eqn:E; [left; discriminate | right; right; eauto].
 Qed.
 
 Theorem deadlock_free rep live sh0 r0 progs sched t0 :
   let st := run rep sched (init_state live sh0 r0 progs) in
   prog (th st t0) <> [] ->
   exists t i r, prog (th st t) = i :: r
-                /\ (step rep st t <> None \/ (i = IPopHook /\ hooks (sh st) = 0%nat)).
+                /\ (step rep st t <> None \/ (i = IPopHook /\ hooks (sh st) = 0%nat)
+                    \/ (exists t', i = IJoin t' /\ existsb (Nat.eqb t') (fin (sh st)) = false)).
 Proof.
   intros st H0. assert (I : Inv st) by (apply run_inv, init_inv).
   destruct (no_deadlock st t0 I H0) as [t [Hp Hb]].
